@@ -58,6 +58,7 @@ func (p Parser) ParseFile(fileName string) {
 	f, err := os.Open(fileName)
 	if err != nil {
 		p.Errors <- NewErrorIO(err, fileName)
+		p.Done <- true
 		return
 	}
 	defer f.Close()
